@@ -3,23 +3,28 @@
 
    Model: TkModel.Journal — printers (Display for Transaction / Posting / TxnHeader / GeoPoint / Decimal,
    rfc_3339, identity exporter) and the character-level journal parser (parser/parts/*.rs) followed by the
-   semantic layer Accept.accept_txn and the canonical sort.  All four stages are reached:
+   semantic layer Accept.accept_txn and the canonical sort.  All stages are reached:
      stage 1  decimal literal            C06_dec_roundtrip
      stage 2  posting line               C06_posting_roundtrip
      stage 3  time stamp, header line, metadata, comments   C06_ts_roundtrip (+ lemmas used by stage 4)
      stage 4  transaction and journal    C06_chunk_roundtrip, C06_roundtrip, C06_fixpoint
-   Hypothesis journal_wf (TkSpec.Journal_spec) = decidable description of the transactions the loader
-   produces: time stamp shown at a whole-minute offset within jiff's ranges, civil year 0000..9999;
-   trimmed code / description; lower-case uuid; location in range; valid distinct tags; one-line comments;
-   valid names; non-zero amounts; every decimal in the 96-bit / 28-decimals type; a unit-priced posting
-   stores amount * price for a representable non-negative price (unit_priced — "price products are exact");
-   one transaction commodity; zero sum; canonical order.
-   NOT proved: that every journal accepted by load_journal yields a journal_wf list (the converse
-   inclusion; tested by the correspondence only).  Decimal division is a contract on exact quotients. *)
+     stage 5  every ACCEPTED journal     C06_load_wf, C06_accepted_roundtrip, C06_accepted_fixpoint
+   journal_wf (TkSpec.Journal_spec) = decidable description of the transactions the loader produces: time
+   stamp shown at a whole-minute offset within jiff's ranges, civil year 0000..9999; trimmed code /
+   description; lower-case uuid; location in range; valid distinct tags; one-line comments; valid names;
+   non-zero amounts; every decimal in the 96-bit / 28-decimals type; a unit-priced posting stores
+   amount * price for a representable non-negative price (unit_priced - "price products are exact"); one
+   transaction commodity; zero sum; canonical order.  C06_load_wf proves that every journal accepted by the
+   model loader yields such transactions, under two explicit hypotheses:
+     cfg_ok    the journal zone is a fixed whole-minute offset (named zones with sub-minute offsets: finding
+               F13, C06_subminute_zone_refuted) and the default time lies inside the day;
+     in_domain every amount / transaction amount of the result fits the decimal type (Dec.v computes on
+               unbounded integers; the library would round or panic - outside the property's quantifier).
+   Decimal division is a contract on exact quotients (ddiv), validated against rust_decimal by the check. *)
 From TkModel Require Import Base Dec Acct Txn Accept Journal.
 From TkSpec Require Import Journal_spec.
 From TkProofs Require Import Journal_base_proofs Journal_civil_proofs Journal_time_proofs Journal_line_proofs
-                             Journal_header_proofs Journal_proofs.
+                             Journal_header_proofs Journal_proofs Journal_image_proofs.
 Local Open Scope Z_scope.
 
 (* stage 1: a printed decimal reads back with the same mantissa and scale, whatever follows it
@@ -102,9 +107,43 @@ Theorem C06_subminute_offset_refuted :
 Proof. exact subminute_offset_refuted. Qed.
 Print Assumptions C06_subminute_offset_refuted.
 
+(* stage 5: whatever text the loader accepts, the result is well formed ... *)
+Theorem C06_load_wf : forall cfg s ts,
+  cfg_ok cfg = true -> load_journal cfg s = Ok ts -> in_domain ts = true -> journal_wf ts = true.
+Proof. exact load_wf. Qed.
+Print Assumptions C06_load_wf.
+
+(* ... hence THE PROPERTY for every accepted journal: its identity export is itself accepted (under any
+   journal-zone setting cfg') and loads to the same ordered transactions - instants and offsets, codes,
+   descriptions, uuids, locations, tags, comments, accounts, amounts, commodities, closing prices,
+   posting comments (here: identical, including the decimal representations) *)
+Theorem C06_accepted_roundtrip : forall cfg cfg' s ts,
+  cfg_ok cfg = true -> load_journal cfg s = Ok ts -> in_domain ts = true ->
+  load_journal cfg' (print_journal ts) = Ok ts.
+Proof. exact accepted_roundtrip. Qed.
+Print Assumptions C06_accepted_roundtrip.
+
+(* ... and exporting the re-loaded journal reproduces the identical text *)
+Theorem C06_accepted_fixpoint : forall cfg cfg' s ts ts',
+  cfg_ok cfg = true -> load_journal cfg s = Ok ts -> in_domain ts = true ->
+  load_journal cfg' (print_journal ts) = Ok ts' -> print_journal ts' = print_journal ts.
+Proof. exact accepted_fixpoint. Qed.
+Print Assumptions C06_accepted_fixpoint.
+
+(* finding F13 on journals: the hypothesis cfg_ok cannot be dropped - with a journal zone at +01:39:49
+   an accepted journal is exported to a text that is rejected *)
+Theorem C06_subminute_zone_refuted :
+  exists cfg s ts, load_journal cfg s = Ok ts /\ in_domain ts = true /\ load_journal cfg (print_journal ts) = Err E_syntax.
+Proof. exact subminute_zone_refuted. Qed.
+Print Assumptions C06_subminute_zone_refuted.
+
 (* non-vacuity: a transaction with code, description, uuid, location, tags, three comments, a unit
    price with trailing zeros, a total price, posting comments (also an empty one) is well formed, and
-   the model's export of it is the text the implementation produced (corpus/C06/00-all-features) *)
+   the model's export of it is the text the implementation produced (corpus/C06/00-all-features);
+   that text is accepted by the model loader and yields this transaction, inside the domain *)
 Example C06_example :
   journal_wf [example_txn; example_txn] = true /\ print_journal [example_txn] = example_text.
 Proof. exact example_wf. Qed.
+Example C06_example_accepted :
+  cfg_ok (mkCfg 0 0) = true /\ load_journal (mkCfg 0 0) example_text = Ok [example_txn] /\ in_domain [example_txn] = true.
+Proof. exact example_accepted. Qed.
